@@ -196,6 +196,76 @@ def reader_tables(repo):
     return non_ident, table, esc, alphabet, ws
 
 
+# ------------------------------------------------------------------ the body of hy-repr (state handling)
+
+START_QUOTING = ("list", "(", [
+    ("sym", "when"),
+    ("list", "(", [("sym", "and"),
+                   ("list", "(", [("sym", "not"), ("sym", "_quoting")]),
+                   ("list", "(", [("sym", "isinstance"), ("sym", "obj"), ("sym", "hy.models.Object")]),
+                   ("list", "(", [("sym", "not"), ("list", "(", [("sym", "isinstance"), ("sym", "obj"), ("sym", "hy.models.Keyword")])])]),
+    ("list", "(", [("sym", "setv"), ("sym", "_quoting"), ("sym", "True")]),
+    ("list", "(", [("sym", "setv"), ("sym", "started-quoting"), ("sym", "True")])])
+ADD_SEEN = ("list", "(", [("sym", ".add"), ("sym", "_seen"), ("sym", "oid")])
+DISCARD_SEEN = ("list", "(", [("sym", ".discard"), ("sym", "_seen"), ("sym", "oid")])
+RESET_QUOTING = ("list", "(", [("sym", "when"), ("sym", "started-quoting"),
+                               ("list", "(", [("sym", "setv"), ("sym", "_quoting"), ("sym", "False")])])
+CALL_PRINTER = ("list", "(", [("sym", "f"), ("sym", "obj")])
+NEUTRAL = [("list", "(", [("sym", "global"), ("sym", "_quoting")]),
+           ("list", "(", [("sym", "setv"), ("sym", "started-quoting"), ("sym", "False")]),
+           ("list", "(", [("sym", "setv"), ("sym", "oid"), ("list", "(", [("sym", "id"), ("sym", "obj")])])]
+
+
+def touches_state(x):
+    return any(y in (("sym", "_seen"), ("sym", "_quoting")) for y in sx.walk(x))
+
+
+def repr_steps(forms, where):
+    """statements of hy-repr -> names of the state steps they perform, in order (fail-closed)"""
+    out = []
+    for x in forms:
+        if x == START_QUOTING:
+            out.append("StartQuoting")
+        elif x == ADD_SEEN:
+            out.append("AddSeen")
+        elif x == DISCARD_SEEN:
+            out.append("DiscardSeen")
+        elif x == RESET_QUOTING:
+            out.append("ResetQuoting")
+        elif sx.is_call(x, "when") and len(x[2]) == 3 and x[2][1] == ("list", "(", [("sym", "in"), ("sym", "oid"), ("sym", "_seen")]) \
+                and sx.is_call(x[2][2], "return") and not touches_state(x[2][2]):
+            out.append("ReturnIfSeen")
+        elif x in NEUTRAL or x[0] in ("sym", "str"):
+            continue
+        elif sx.is_call(x, "setv") and len(x[2]) == 3 and x[2][1] == ("list", "[", [("sym", "f"), ("sym", "placeholder")]) \
+                and not touches_state(x[2][2]):
+            continue
+        elif any(y == CALL_PRINTER for y in sx.walk(x)) and not touches_state(x) \
+                and not any(sx.is_call(y, h) and any(z == CALL_PRINTER for z in sx.walk(y))
+                            for y in sx.walk(x) for h in ("try", "return", "when", "if", "cond", "while", "for", "fn", "and", "or")):
+            out.append("CallPrinter")
+        else:
+            raise ShapeChanged("%s: hy-repr: statement of %s not understood (it may touch _seen/_quoting): %r" % (HY_REPR, where, x[:2]))
+    return out
+
+
+def repr_body(repo):
+    forms = sx.read_file(os.path.join(repo, HY_REPR), HY_REPR)
+    fn = [f for f in forms if sx.is_call(f, "defn") and len(f[2]) > 3 and f[2][1] == ("sym", "hy-repr")]
+    if len(fn) != 1 or fn[0][2][2] != ("list", "[", [("sym", "obj")]):
+        raise ShapeChanged("%s: (defn hy-repr [obj] ...) not found" % HY_REPR)
+    body = fn[0][2][3:]
+    if body and sx.is_call(body[-1], "try"):
+        t = body[-1][2][1:]
+        fins = [x for x in t if sx.is_call(x, "finally")]
+        if len(fins) != 1 or t[-1] is not fins[0] or any(sx.is_call(x, h) for x in t for h in ("except", "else")):
+            raise ShapeChanged("%s: hy-repr: the try form is not (try body... (finally ...))" % HY_REPR)
+        return "TryFinally [%s] [%s] [%s]" % ("; ".join(repr_steps(body[:-1], "the prologue")),
+                                               "; ".join(repr_steps(t[:-1], "the try body")),
+                                               "; ".join(repr_steps(fins[0][2][1:], "the finally clause")))
+    return "Straight [%s]" % "; ".join(repr_steps(body, "the body"))
+
+
 def translate(repo):
     registered, conditional, formats, seq_formats, syntax = repr_tables(repo)
     non_ident, table, esc, alphabet, ws = reader_tables(repo)
@@ -214,6 +284,10 @@ def translate(repo):
     out += "(* the [types fmt] rows of the placeholder-format loop *)\n"
     out += "Definition repr_seq_formats : list (list N * list N) := [%s].\n" % ";\n  ".join(
         "(%s, %s)" % (q(n), q(f)) for n, f in seq_formats)
+    out += ("(* the body of hy-repr as the sequence of its steps on the state (_quoting, _seen) *)\n"
+            "Inductive rstep := StartQuoting | ReturnIfSeen | AddSeen | CallPrinter | DiscardSeen | ResetQuoting.\n"
+            "Inductive rbody := Straight (l : list rstep) | TryFinally (pre tr fin : list rstep).\n")
+    out += "Definition hy_repr_body : rbody := %s.\n" % repr_body(repo)
     out += "(* hy_reader.py *)\n"
     out += "Definition rd_non_ident : list N := %s.\n" % q(non_ident)
     out += "Definition rd_whitespace : list N := %s.\n" % q(ws)
